@@ -394,7 +394,18 @@ def execute(case):
             ck.label("grad_api_second_call")
             prev = evaluate(T, case, c, False)[0] * 3.0 + 1.0
             if api == "grad":
-                lib(lambda: T.grad.grad(prev, leaves2["x1"]))
+                # ... asked for the same operand, for ANOTHER watched operand of the expression, or by a backward pass of the
+                # user's own: in each case stale .grad contents of x1 must not leak into the result below
+                how = (case["seed"] // 3) % 3
+                other = [l for l in leaves2 if l != "x1" and any(t.requires_grad for t in c.cores[l])]
+                if how == 1 and other:
+                    ck.label("grad_api_earlier_call_other_operand")
+                    lib(lambda: T.grad.grad(prev, leaves2[other[0]]))
+                elif how == 2 and getattr(prev, "requires_grad", False):
+                    ck.label("grad_api_earlier_user_backward")
+                    lib(lambda: prev.backward())
+                else:
+                    lib(lambda: T.grad.grad(prev, leaves2["x1"]))
             else:
                 lib(lambda: T.grad.grad_list(prev, [leaves2[l] for l in case.get("gl_leaves", ["x1", "x2"])]))
         # evaluate() builds its own TT objects from the same core tensors, so .grad lands on them
